@@ -20,7 +20,7 @@ ID = 'C02'
 LEVEL = 'model_checking'
 MODE = 'C02'
 RULE = ('state = concrete typed stack; transitions = every alphabet instruction instance the reference typing rules accept; after each '
-        'transition every result slot is type-checked against the static type (recursive consistency walk); BFS with canonical dedup from 46 seeds')
+        'transition every result slot is type-checked against the static type (recursive consistency walk); BFS with canonical dedup from 48 seeds')
 BOUND = {'quick': 'depth 2 from every seed (full alphabet at depth 0, reduced at depth 1)', 'thorough': 'depth 3 (reduced alphabet at depth 2)'}
 ASSUMPTIONS = ['static types = mc.ref.meval.typecheck (annotation-blind Michelson typing rules)',
                'the type of a value is read from type(value).as_micheline_expr() with annotations stripped']
